@@ -453,9 +453,46 @@ def _stream_lazy(prog):
     return stream_lazy(prog)
 
 
+def wrapper_eq(prog: Program) -> RuleResult:
+    """The sweep takes a dead wrapper out of the per-class list with list.remove, which compares it with the live wrappers in front of it.  A
+    wrapper whose instance is gone equals nothing - and the question must not reach the user's __eq__ with None on either side: a permissive
+    __eq__ (label == getattr(other, 'label', None)), or one that builds an expression object, answers 'equal', the *live* wrapper is removed
+    and the dead one stays for good."""
+    r = RuleResult("WRAPPER-EQ", "a wrapper compares instances only when both are alive", floor=1)
+    wi = prog.cls("symbol_graph.WrappedInstance")
+    f = wi.methods.get("__eq__")
+    if f is None:
+        r.ok("WrappedInstance.__eq__#both-sides-alive", wi.loc, "", "identity comparison (no __eq__ defined)")
+        return r
+    aliases = {}
+    for x in walk_local(f.node):
+        if isinstance(x, ast.Assign) and len(x.targets) == 1 and isinstance(x.targets[0], ast.Name):
+            aliases[x.targets[0].id] = src(x.value)
+
+    def canon(e) -> str:
+        t = src(e)
+        return aliases.get(t, t)
+
+    compared = set()
+    for x in walk_local(f.node):
+        if isinstance(x, ast.Compare) and len(x.ops) == 1 and isinstance(x.ops[0], (ast.Eq, ast.NotEq)):
+            for side in (x.left, x.comparators[0]):
+                if "instance" in canon(side):
+                    compared.add(canon(side))
+    alive = set()
+    for x in walk_local(f.node):
+        if isinstance(x, ast.Compare) and len(x.ops) == 1 and isinstance(x.ops[0], (ast.IsNot, ast.Is)) and isinstance(x.comparators[0], ast.Constant) and x.comparators[0].value is None:
+            alive.add(canon(x.left))
+    missing = sorted(compared - alive)
+    r.check(not missing, "WrappedInstance.__eq__#both-sides-alive", site(f), f"compares {sorted(compared)}", "each instance that is compared was tested against None",
+            f"{missing} is handed to the user's __eq__ without a test for None: comparing a live wrapper with a dead one asks the live instance whether it equals None - a user __eq__ that "
+            "says yes makes the sweep remove the live wrapper and keep the dead one")
+    return r
+
+
 def run(prog: Program, tier: str) -> List[RuleResult]:
     from . import c13
 
     return [guard(lambda: strong_ref(prog)), guard(lambda: weak_wrapper(prog)), guard(lambda: c14.sg_coherence(prog)), guard(lambda: c14.idkey(prog)), guard(lambda: c14.sg_purge_directions(prog)), guard(lambda: c13.sg_sweep(prog)), guard(lambda: _stream_lazy(prog)),
             # an edge whose payload was overwritten leaves its pair in the relation index for good
-            guard(lambda: c14.rel_edges(prog)), guard(lambda: sg_no_raw(prog)), guard(lambda: _pd_field(prog))]
+            guard(lambda: c14.rel_edges(prog)), guard(lambda: sg_no_raw(prog)), guard(lambda: _pd_field(prog)), guard(lambda: wrapper_eq(prog))]
